@@ -17,6 +17,8 @@ SPEC = {
         {"kind": "STR", "type": "(str * outcome str)", "eval": "check_str", "per_shard": 400},
         {"kind": "TY", "type": "(str * outcome gty)", "eval": "check_ty", "per_shard": 400},
         {"kind": "DEEP", "type": "(N * Z * N)", "eval": "check_deep", "per_shard": 400},
+        {"kind": "FRAG", "type": "(document * N * N)", "eval": "check_frag", "per_shard": 60,
+         "requires": "From AG Require Import CrashRec."},
         {"kind": "EXPL", "type": "(N * N)", "eval": "check_expl", "per_shard": 4000},
     ],
     "classes": {1: "upload-marker-not-a-number", 2: "upload-index-out-of-range", 3: "parser-stack-overflow-deep-nesting"},
